@@ -22,7 +22,10 @@ def cases(draw):
     per = draw(st.integers(1, 3))
     alphabet = draw(st.sampled_from([[5], [5, 6], [5, 6, 7]]))
     source = draw(st.lists(st.sampled_from(alphabet), min_size=4, max_size=30))
-    kinds = [draw(st.sampled_from(["req", "req", "ulr", "ccr"])) for _ in range(nthreads)]
+    # bad-req: a construction that fails header validation after its identifiers have been drawn (the caller catches the error)
+    kinds = [draw(st.sampled_from(["req", "req", "ulr", "ccr", "bad-req"])) for _ in range(nthreads)]
+    if all(k == "bad-req" for k in kinds):
+        kinds[0] = "req"
     # dense switching: the race window is a couple of source lines wide
     sched = draw(st.one_of(conc.schedules(400), st.lists(st.sampled_from([0, 0, 0, 1, 1, 2]), min_size=50, max_size=400)))
     return {"kind": "threads", "nthreads": nthreads, "per": per, "source": source, "kinds": kinds, "sched": sched}
@@ -60,6 +63,12 @@ def run_one(case):
                 def run():
                     for _ in range(case["per"]):
                         try:
+                            if case["kinds"][ti] == "bad-req":
+                                try:
+                                    DiameterRequest(command_code=316, application_id=2**32)
+                                except errors:
+                                    pass
+                                continue
                             m = c15._make(case["kinds"][ti], errors)
                             made.append((ti, m.header.hop_by_hop, m.header.end_to_end))
                         except Killed:
@@ -83,7 +92,7 @@ def run_one(case):
     vs = []
     if errs:
         vs.append(V("request creation does not fail", "threads/raises", errs[0]))
-    if info.get("result") != "ok" or len(made) != case["nthreads"] * case["per"]:
+    if info.get("result") != "ok" or len(made) != sum(case["per"] for k in case["kinds"] if k != "bad-req"):
         vs.append(V("concurrent request creation completes", "threads/incomplete", f"{len(made)} created; run={info.get('result')}"))
     hb = [h for _, h, _ in made]
     ee = [e for _, _, e in made]
@@ -108,6 +117,8 @@ def _collect(shard, seed, n):
         f = ["threads", f"threads={case['nthreads']}"]
         if info.get("in_draw_loop"):
             f.append("two-threads-in-draw-loop")
+        if "bad-req" in case["kinds"]:
+            f.append("refused-construction-among-the-threads")
         col.record(case, vs, nontrivial=bool(info.get("in_draw_loop")), classes=f)
 
     common.hyp_collect(cases(), body, n, seed)
